@@ -228,6 +228,16 @@ func runC11(c *Ctx) {
 		"non-trivial = key set with >= 2 keys of which one needs escaping, or >= 2 fork parts, or a journal name with chunk/uniquifier; distinct = distinct canonical case"
 	r.Histogram = map[string]int{}
 
+	if only := os.Getenv("C11_ONLY"); only != "" { // debugging aid: run one stream
+		switch only {
+		case "batch":
+			c11Batches(c)
+		case "ta":
+			c11KeyLens(c)
+			c11TierA(c)
+		}
+		return
+	}
 	c11Keys(c)
 	c11ForkIds(c)
 	c11Search(c)
@@ -237,6 +247,8 @@ func runC11(c *Ctx) {
 	c11World(c)
 	c11Find(c)
 	c11Batches(c)
+	c11KeyLens(c)
+	c11TierA(c)
 	c11Attempts(c)
 	c11Resets(c)
 }
